@@ -189,6 +189,19 @@ class Builtins:
             return ex.coerce(v, ty, what)
         if ty.kind == "opt":
             return ex.coerce(self.lower(v, ty.args[0], st, what), ty, what)
+        if v.kind == "cdict" and ty == T.JREP:
+            S.sort(T.JREP)
+            d = {}
+            for a, b in v.data:
+                if not (isinstance(a, SV) and a.ty == T.STR and a.t.startswith('"')):
+                    raise Unsupported("JSON object with a non-constant key %s" % what)
+                d[a.t.strip('"')] = b
+            if "$" not in d or set(d) - {"$", "type", "lang"}:
+                raise Unsupported("JSON object with keys %r %s" % (sorted(d), what))
+            dollar = ex.box(d["$"]) if isinstance(d["$"], SV) else ex.box(self.lower(d["$"], T.VAL, st, what))
+            ty_ = ex.coerce(d["type"], T.Opt(T.STR), what).t if "type" in d else S.none(T.STR)
+            lg_ = ex.coerce(d["lang"], T.Opt(T.STR), what).t if "lang" in d else S.none(T.STR)
+            return SV("(JObj %s %s %s)" % (dollar.t, ty_, lg_), T.JREP)
         if v.kind in ("cset", "tuple") and ty.kind == "vset":
             t = SV("vs_empty", T.VSET)
             for x in v.data:
@@ -821,6 +834,22 @@ class Builtins:
             if name == "qm_key":
                 return SV("(select (%s %s) %s)" % (keyf, m.t, u), T.QN)
             return SV(cell if T.total_map_value(vv) else S.the(vv, cell), vv)
+        if name == "jobj":
+            S.sort(T.JREP)
+            return SV("(JObj %s %s %s)" % (ex.box(a[0]).t, ex.coerce(a[1], T.Opt(T.STR)).t, ex.coerce(a[2], T.Opt(T.STR)).t), T.JREP)
+        if name == "jplain":
+            S.sort(T.JREP)
+            return SV("(JPlain %s)" % ex.box(a[0]).t, T.JREP)
+        if name == "is_jobj":
+            return B("((_ is JObj) %s)" % a[0].t)
+        if name == "j_dollar":
+            return SV("(jdollar %s)" % a[0].t, T.VAL)
+        if name == "j_plain":
+            return SV("(jplain %s)" % a[0].t, T.VAL)
+        if name == "j_type":
+            return SV("(jtype %s)" % a[0].t, T.Opt(T.STR))
+        if name == "j_lang":
+            return SV("(jlang %s)" % a[0].t, T.Opt(T.STR))
         if name == "pair":
             pt = T.Tup(a[0].ty, a[1].ty)
             return SV("(mk_%s %s %s)" % (S.sort(pt), a[0].t, a[1].t), pt)
